@@ -417,6 +417,20 @@ func migrationScenarios(repo string) []Scenario {
 		}
 		run("migration-testdata:"+filepath.Base(file), defs)
 	}
+	if all, airtime := legacyRuleSetDefs(repo); all != nil {
+		run("legacy-rulesets:all", all)
+		if airtime != nil {
+			vs := airtimeVariants(airtime)
+			var names []string
+			for n := range vs {
+				names = append(names, n)
+			}
+			sort.Strings(names)
+			for _, n := range names {
+				run("legacy-airtime:"+n, []json.RawMessage{vs[n]})
+			}
+		}
+	}
 	legacy, _ := filepath.Glob(filepath.Join(repo, "test/testdata/runner/legacy_*.json"))
 	sort.Strings(legacy)
 	for _, file := range legacy {
@@ -564,5 +578,6 @@ func Scenarios(repo string) []Scenario {
 	out = append(out, processStateScenarios()...)
 	out = append(out, edgeScenarios()...)
 	out = append(out, envStateScenarios()...)
+	out = append(out, valueStateScenarios()...)
 	return out
 }
